@@ -9,7 +9,7 @@
    _partial, exactly:
    - comment-free statements: Parser.v's statement trees carry no comments (as Pratt.v's trees
      carry no multiline items), so a statement with a trailing comment is outside;
-   - the statement kinds below; assignments to an index or dot target and the block statements
+   - the statement kinds below; the block statements (Props/C06_block.v)
      (if / while / for / func / on) are not done;
    - the value / arguments satisfy [top_ok] / [item_ok] (C06_roundtrip.v: the layered fragment,
      array and map literals, parenthesised and niladic calls as whole expressions, and a call
@@ -22,7 +22,7 @@
    ([fexpr_tree] of its expressions), reports no new error, and the cursor is at the first
    token of the next line ([skip1]: advancePastNL also skips that line's indentation). *)
 From Coq Require Import List String NArith ZArith Bool Arith.
-From EvyV Require Import Base FmtAst Format Pratt PrattProofs Parser FormatParse FormatParseProofs FormatParseListProofs FormatParseStmtProofs.
+From EvyV Require Import Base FmtAst Format Pratt PrattProofs Parser FormatParse FormatParseProofs FormatParseListProofs FormatParseStmtProofs FormatParseTargetProofs.
 From EvyV.Gen Require Import Prec.
 Import ListNotations.
 Local Open Scope nat_scope.
@@ -96,6 +96,18 @@ Theorem C06_roundtrip_assign_var_partial :
   exists s', parse_assign_stmt B s = Ok (Some (Parser.SAssign (TVar x) (fexpr_tree v))) s' /\ at_toks s' (skip1 r) e /\ peek_ok s' (skip1 r).
 Proof. exact assign_var_roundtrip. Qed.
 Print Assumptions C06_roundtrip_assign_var_partial.
+
+(* t = v  with t a variable followed by any chain of  [i]  and  .k  (parseAssignmentTarget's loop) *)
+Theorem C06_roundtrip_assign_target_partial :
+  forall (B : benv), (forall s t n, b_tyerr B s t n = false) ->
+  forall (fixed : fixes) (lvl : nat) (s : pst) (t : fexpr) (x : str) (steps : list tstep) (v : fexpr) (r : list token) (e : list (perr * nat)),
+  tgt_split t = Some (x, steps) -> ident_text x = true -> Parser.is_func x s = false -> scope_get x s = true ->
+  Forall (step_ok (env_of B s)) steps -> top_ok (env_of B s) v ->
+  at_toks s (toks_of_pieces (fmt_stmt fixed lvl (FmtAst.SAssign t v [])) ++ mk T_NL :: r) e ->
+  is_ws (look0 (skip1 r)) = false ->
+  exists s', parse_assign_stmt B s = Ok (Some (Parser.SAssign (fexpr_tree t) (fexpr_tree v))) s' /\ at_toks s' (skip1 r) e /\ peek_ok s' (skip1 r).
+Proof. exact assign_target_roundtrip. Qed.
+Print Assumptions C06_roundtrip_assign_target_partial.
 
 (* ---------- non-vacuity: the hypotheses are satisfiable and the models run ---------- *)
 (*   x := a[i + 1] * 2     and     print x [1 2] (len a)     in a scope that declares a and i *)
